@@ -2,7 +2,7 @@
    instantiated at the real numbers (Rops); the executed instance is Qops.  Column norms enter as data with
    the contract norms_valid (n > 0, n^2 = sum of squares); linear_sum_assignment is the oracle `assign`
    with contract lsa_contract (a maximum-weight perfect matching). *)
-From Coq Require Import List Arith Bool Reals QArith Lia Lra.
+From Coq Require Import List Arith Bool Reals QArith Lia Lra ZArith.
 From TLV Require Import Base.Shape Base.PyList Base.Tensor Base.Ops Base.RSum Model.Metrics Proofs.MetricsProofs
   Proofs.MetricsProofs2 Proofs.MetricsProofs3 Proofs.MetricsProofs4 Proofs.MetricsProofs5 Proofs.MetricsProofs6
   Proofs.MetricsProofs7 Proofs.MetricsProofs8.
@@ -286,6 +286,16 @@ Theorem C20_leverage_renorm_simplex : forall (U : mat R) (sv : list R) (nr nc : 
 Proof. exact leverage_renorm_simplex. Qed.
 Print Assumptions C20_leverage_renorm_simplex.
 
+(* the axis argument as passed by the caller (an integer, possibly negative) is normalised NumPy-style before the
+   metrics above are applied: accepted exactly for -ndim <= axis < ndim, negative values count from the end *)
+Theorem C20_norm_axis_spec : forall (z : BinNums.Z) (nd : nat),
+  match norm_axis z nd with
+  | Ok a => (a < nd)%nat /\ ((0 <= z)%Z /\ Z.of_nat a = z \/ (z < 0)%Z /\ Z.of_nat a = (z + Z.of_nat nd)%Z)
+  | Err => (z < - Z.of_nat nd)%Z \/ (Z.of_nat nd <= z)%Z
+  end.
+Proof. exact norm_axis_spec. Qed.
+Print Assumptions C20_norm_axis_spec.
+
 (* ---------- non-vacuity ---------- *)
 (* the oracle contract is satisfiable: the brute force itself meets it *)
 Example C20_ex_lsa_contract : lsa_contract (fun C => best_perm Rops (nrows C) C).
@@ -319,6 +329,9 @@ Example C20_ex_corrindex_Q :
 Proof. vm_compute. reflexivity. Qed.
 
 (* unit-norm columns: leverage scores of U = e_1 (2 x 1) *)
+Example C20_ex_norm_axis : norm_axis (-1) 3 = Ok 2%nat /\ norm_axis (-3) 3 = Ok 0%nat /\ norm_axis (-4) 3 = Err /\ norm_axis 3 3 = Err.
+Proof. vm_compute. repeat split. Qed.
+
 Example C20_ex_leverage_Q : leverage_score_dist Qops [[1#1]; [0#1]] [2#1] 2 1 (1#1000) = Ok [1%Q; 0%Q].
 Proof. vm_compute. reflexivity. Qed.
 
